@@ -799,6 +799,45 @@ func c19StringTags(c *Ctx, decls map[*types.Func]*ast.FuncDecl, info *types.Info
 				if tv, ok := info.Types[e]; ok && tv.Value != nil {
 					tag = strings.Trim(tv.Value.ExactString(), `"`)
 				}
+				// the tag (and the text) arrive as parameters of a helper: each call site is a (tag, text source) pair
+				if tagIdx, valIdx := paramIndex(info, decl, e), calleeParamIndex(info, decl, val); tagIdx >= 0 && valIdx >= 0 {
+					bad := ""
+					nSites := 0
+					for cfn, cdecl := range decls {
+						ast.Inspect(cdecl.Body, func(m ast.Node) bool {
+							call, ok := m.(*ast.CallExpr)
+							if !ok || Callee(info, call) != fn || len(call.Args) <= tagIdx || len(call.Args) <= valIdx {
+								return true
+							}
+							nSites++
+							siteTag := ""
+							if tv, ok := info.Types[call.Args[tagIdx]]; ok && tv.Value != nil {
+								siteTag = strings.Trim(tv.Value.ExactString(), `"`)
+							}
+							textIsNumber := false
+							if lit, ok := ast.Unparen(call.Args[valIdx]).(*ast.FuncLit); ok {
+								textIsNumber = true
+								ast.Inspect(lit.Body, func(q ast.Node) bool {
+									if ret, ok := q.(*ast.ReturnStmt); ok && len(ret.Results) == 1 {
+										if c19ValueSource(info, lit.Body, ret.Results[0]) != "number" {
+											textIsNumber = false
+										}
+									}
+									return true
+								})
+							}
+							if !textIsNumber && siteTag != "!!str" && bad == "" {
+								bad = fmt.Sprintf("%s calls %s with tag %q for string-valued text", cfn.Name(), fn.Name(), siteTag)
+							}
+							return true
+						})
+					}
+					if nSites > 0 {
+						r.Check(bad == "", rid, fmt.Sprintf("%s: string-valued %s scalars are tagged !!str at every call site of the helper", fn.Name(), role), c.P.Pos(cl.Pos()),
+							bad+": the published "+strings.ToLower(role)+" member is re-read by YAML as a number, boolean or null")
+						return true
+					}
+				}
 			}
 			_, styled := set["Style"]
 			r.Check(tag == "!!str" || styled, rid, fmt.Sprintf("%s: string-valued %s scalar (%s) is tagged !!str", fn.Name(), role, types.ExprString(val)), c.P.Pos(cl.Pos()),
@@ -1156,4 +1195,32 @@ func schemaCopiesKeepConstraints(c *Ctx, rid string) {
 		})
 	}
 	r.OKd(rid, "schema literals inspected for partial copies", "", map[string]any{"schema_literals": nLits, "partial_copies": nCopies})
+}
+
+// paramIndex: e is an identifier naming a parameter of decl; its position in the parameter list, else -1.
+func paramIndex(info *types.Info, decl *ast.FuncDecl, e ast.Expr) int {
+	id, ok := ast.Unparen(e).(*ast.Ident)
+	if !ok {
+		return -1
+	}
+	o := info.ObjectOf(id)
+	i := 0
+	for _, f := range decl.Type.Params.List {
+		for _, nm := range f.Names {
+			if info.ObjectOf(nm) == o {
+				return i
+			}
+			i++
+		}
+	}
+	return -1
+}
+
+// calleeParamIndex: e is a call of a function-typed parameter of decl (valueOf(x)); that parameter's position, else -1.
+func calleeParamIndex(info *types.Info, decl *ast.FuncDecl, e ast.Expr) int {
+	call, ok := ast.Unparen(e).(*ast.CallExpr)
+	if !ok {
+		return -1
+	}
+	return paramIndex(info, decl, call.Fun)
 }
